@@ -101,6 +101,9 @@ def execute(ctx, v, params, kind, delivery):
     reporting an exception as a violation."""
     try:
         return tok.run(v, params, kind, delivery)
+    except tok.EarlierResultAltered as exc:
+        ctx.violation("earlier-result-altered-by-later-run", {"case": case_of(v, params, kind, delivery), "detail": str(exc)})
+        return None
     except Exception as exc:  # accepted parameters + finite stream must never raise
         ctx.violation(
             "exception:" + type(exc).__name__,
